@@ -138,6 +138,24 @@ def _run_map(case, rec, rng):
         ana = dfdx - prefill
         rec.require("map_inputs_unmodified", np.array_equal(x, x0) and np.all(dfdy == 1.0),
                     mechanism="%s.fill_deriv_:modifies-input" % name)
+        # form of the data: integer-valued raw features stored as integers give the derivative (and value) of the same values
+        # stored as floats - added after a seeded work buffer that took the dtype of the raw-feature array
+        xi = np.maximum(np.rint(np.abs(x)), 1.0)
+        try:
+            with np.errstate(all="ignore"):
+                df_f, df_i = np.zeros((nraw, npts)), np.zeros((nraw, npts))
+                m.fill_deriv_(df_f, np.ones(npts), xi.copy())
+                m.fill_deriv_(df_i, np.ones(npts), xi.astype(np.int64))
+                y_f, y_i = np.zeros(npts), np.zeros(npts)
+                m.fill_feat_(y_f, xi.copy())
+                m.fill_feat_(y_i, xi.astype(np.int64))
+            if np.all(np.isfinite(df_f)) and np.all(np.isfinite(y_f)):
+                sc_i = max(float(np.max(np.abs(df_f))), 1e-300)
+                rec.check("map_integer_inputs[%s]" % name, max(float(np.max(np.abs(df_i - df_f))) / sc_i,
+                                                               float(np.max(np.abs(y_i - y_f))) / max(float(np.max(np.abs(y_f))), 1e-300)),
+                          TOL_EXACT, mechanism="%s.fill_deriv_" % name, detail={"kw": kw, "form": "int64 raw features"})
+        except Exception as e:  # noqa: BLE001 - a map that refuses integer arrays is not judged here
+            rec.note("integer_inputs_not_evaluated[%s]" % name, repr(e)[:120])
         used = sorted(v for k, v in kw.items() if k in INDEX_NAMES)
         worst, selfworst = 0.0, 0.0
         fds = {}
